@@ -785,7 +785,41 @@ func runDueCheckNotPassed(rep *vh.Report, env vh.Env) {
 			s.GracePeriodStart = now.Add(-sut.GraceTTL - time.Duration(60+r.Intn(7200))*time.Second)
 		}
 		unavailable := []int{503, 429}[r.Intn(2)]
-		step := []string{"refresh-then-profile", "refresh", "validate", "validate-then-profile"}[r.Intn(4)]
+		step := []string{"refresh-then-profile", "refresh", "validate", "validate-then-profile", "refresh-without-refresh-token"}[r.Intn(5)]
+		if step == "refresh-without-refresh-token" {
+			// the access token has expired and the session holds no refresh token: the refresh that is due
+			// cannot be passed, whatever the state of the grace period and of the validity deadline
+			// (added after seeded change C01k - "missing refresh token" no longer counted as a failed
+			// refresh, leaving the decision to a validation that is not due yet)
+			s.RefreshToken = ""
+			s.RefreshDeadline = now.Add(-time.Duration(60+r.Intn(600)) * time.Second)
+			if r.Intn(2) == 0 {
+				s.ValidDeadline = now.Add(time.Duration(120+r.Intn(400)) * time.Second)
+			} else {
+				s.ValidDeadline = now.Add(-time.Duration(60+r.Intn(600)) * time.Second)
+				ps.Auth.Set("validate", at, sut.ValidateOK())
+				ps.Auth.Set("profile", at, sut.ProfileOK(email, []string{"staff"}))
+			}
+			graceUsedUp = true
+			rs := ps.Client.Do(sut.Req{Host: host, Target: []string{"/due/" + uid, "/oauth2/auth"}[r.Intn(2)], Cookies: []string{ps.CookieName + "=" + ps.Seal(s)}})
+			ps.Auth.Unset("validate", at)
+			ps.Auth.Unset("profile", at)
+			rep.Eval()
+			if rs.Err != nil {
+				rep.Count("client_errors", 1)
+				return
+			}
+			rep.Distinct("due|" + host + "|" + step)
+			if len(ps.Hits(rs.ID)) > 0 || rs.Status == 202 || strings.Contains(string(rs.Body), "UPSTREAM-CONTENT-") {
+				rep.Violate("c01-due", i, "backend-reached-unauthorised failing=due-check-not-passed at=refresh-without-refresh-token",
+					"the session's refresh was due and it holds no refresh token, yet the request was let through",
+					map[string]interface{}{"index": i, "host": host, "step": step, "status": rs.Status})
+				return
+			}
+			rep.Count("due_check_not_passed_refused", 1)
+			rep.Count("due_check_not_passed_refused_at_"+step, 1)
+			return
+		}
 		if host == "dom.sso.test" && (step == "refresh-then-profile" || step == "validate-then-profile") {
 			step = strings.Split(step, "-")[0] // no group lookup on an upstream without a group rule
 		}
@@ -832,7 +866,7 @@ func runDueCheckNotPassed(rep *vh.Report, env vh.Env) {
 		rep.Count("due_check_not_passed_refused_at_"+step, 1)
 	})
 	rep.Floor("due_check_not_passed_refused", 100)
-	for _, st := range []string{"refresh-then-profile", "refresh", "validate", "validate-then-profile"} {
+	for _, st := range []string{"refresh-then-profile", "refresh", "validate", "validate-then-profile", "refresh-without-refresh-token"} {
 		rep.Floor("due_check_not_passed_refused_at_"+st, 5)
 	}
 }
